@@ -81,4 +81,7 @@ example : Dense 33333333 0 ((List.range 30).map (fun (i : Nat) => ((i : Int) + 1
 theorem text_TraefikOidc_VerifyToken_ok : Oidc.Shapes.Text_TraefikOidc_VerifyToken := by unfold Oidc.Shapes.Text_TraefikOidc_VerifyToken; rfl
 theorem text_TraefikOidc_performPreVerificationChecks_ok : Oidc.Shapes.Text_TraefikOidc_performPreVerificationChecks := by unfold Oidc.Shapes.Text_TraefikOidc_performPreVerificationChecks; rfl
 
+/-! further obligations against the regenerated program text (`Oidc/Shapes.lean`): constructor wiring and URL builders -/
+theorem text_New_ok : Oidc.Shapes.Text_New := by unfold Oidc.Shapes.Text_New; rfl
+
 end Oidc.Props.C19
